@@ -203,7 +203,8 @@ def cmp_fields(table, sent, got, path, problems, with_req=True):
                     problems.append((here, "appeared", None, "ctx"))
                 continue
             if gv is None:
-                if not ctx_is_default(sv):
+                if not ctx_is_default(sv) or any(v is not None and v != [] for v in sv.values()):
+                    # (also a context whose fields were all set to zero / empty on purpose: the sender set them)
                     problems.append((here, "lost", None, None))
                 continue
             cmp_fields(CTX, sv, gv, here, problems)
@@ -928,6 +929,17 @@ def _enum_each_kind():
         yield {"sub": "attrs", "spec": s, "meta": {"incoming": True}, "edit": specs[(i + 1) % len(specs)], "edit_copy": bool(i % 2)}
         yield {"sub": "peer", "spec": s}
     yield {"sub": "peer", "spec": specs[-1], "omit": [["protocol", "type"]]}
+    # a context whose only fields are zero / empty ones the sender set on purpose (first edit, not revoked, an empty quote id)
+    zero_ctx = [{"edit_version": 0}, {"revoke_message": False}, {"stanza_id": ""}, {"participant": "", "remote_jid": ""},
+                {"edit_version": 0, "revoke_message": False, "stanza_id": ""}]
+    for zc in zero_ctx:
+        for s0 in (specs[1], specs[6], specs[7], specs[8], specs[9]):
+            kind = [k for k in s0 if k in KINDS][0]
+            body = dict(s0[kind], dm=dict(s0[kind]["dm"], context_info=zc))
+            yield {"sub": "attrs", "spec": {kind: body}, "meta": {"incoming": False}}
+            yield {"sub": "peer", "spec": {kind: body}}
+        yield {"sub": "attrs", "spec": {"contact": {"display_name": "Bob", "vcard": "424547494e", "context_info": zc}}, "meta": {"incoming": True}}
+        yield {"sub": "attrs", "spec": {"extended_text": dict(specs[5]["extended_text"], context_info=zc)}, "meta": {"incoming": True}}
     # the kind's own entity classes: read every property, assign every property
     for s in specs[1:10]:
         kind = [k for k in s if k in KINDS][0]
